@@ -3,6 +3,7 @@ KEYS = [
     "doctrans.docstring_parsers:parse_docstring",
     "doctrans.defaults_utils:set_default_doc",
     "doctrans.defaults_utils:extract_default",
+    "doctrans.emitter_utils:interpolate_defaults",
 ]
 
 
